@@ -32,7 +32,9 @@ META = dict(
     bounds=['left: and/or trees with <= 3 leaves over a, b:x?, c? (7 shapes); '
             'right: d | d & e | m => d chain | m & n => d chain; further '
             'lines: none | a => e | c? => d | e => m + m => x (a mid-chain '
-            'node that also ends another line)', '8-9 renderings per AST'],
+            'node that also ends another line)', '8-9 renderings per AST',
+            'thorough adds right sides m => n => d | m & n => d & e | m => d '
+            '& e and three more sets of further lines'],
     stubs=['none'],
     assumptions=[],
     outside=['malformed-line rejection', 'parameters, xtriggers, suicide '
@@ -47,14 +49,19 @@ RHS = ['d', 'd & e', 'm => d', 'm & n => d']
 EXTRA = [None, 'a => e', 'c? => d', 'e => m\nm => x']
 
 
-def cases():
+RHS_BIG = RHS + ['m => n => d', 'm & n => d & e', 'm => d & e']
+EXTRA_BIG = EXTRA + ['a => e\nc? => d', 'e => m\nm => x\nb:x? => n',
+                     'e => n']
+
+
+def cases(big=False):
     for li, lhs in enumerate(LHS):
         for perm in itertools.permutations(LEAVES):
             if li == 0 and perm[1:] != tuple(
                     x for x in LEAVES if x != perm[0]):
                 continue
-            for rhs in RHS:
-                for extra in EXTRA:
+            for rhs in (RHS_BIG if big else RHS):
+                for extra in (EXTRA_BIG if big else EXTRA):
                     yield lhs.format(*perm), rhs, extra
 
 
@@ -75,9 +82,10 @@ def renderings(lhs, rhs, extra):
     out['dup'] = '\n'.join(lines + [base])
     out['reorder'] = '\n'.join(reversed(lines))
     if '=>' in rhs:           # chain vs separate pairs
-        mid, last = [x.strip() for x in rhs.split('=>')]
+        parts = [x.strip() for x in rhs.split('=>')]
         out['pairs'] = '\n'.join(
-            [f'{lhs} => {mid}', f'{mid} => {last}']
+            [f'{lhs} => {parts[0]}'] + [
+                f'{a} => {b}' for a, b in zip(parts, parts[1:])]
             + ([extra] if extra else []))
     return out
 
@@ -97,7 +105,7 @@ def smt_presentation(slc):
     ses = Session()
     n = 0
     lo, hi = slc.get('range', (0, 10 ** 9))
-    for idx, (lhs, rhs, extra) in enumerate(cases()):
+    for idx, (lhs, rhs, extra) in enumerate(cases(slc.get('big', False))):
         if not (lo <= idx < hi):
             continue
         rs = renderings(lhs, rhs, extra)
@@ -180,12 +188,12 @@ def replay(lhs, rhs, extra, name) -> bool:
 def OBLIGATIONS(tier):
     big = tier == 'thorough'
     t = 1200 if big else 170
-    total = len(list(cases()))
-    k = 8
+    total = len(list(cases(big)))
+    k = 16 if big else 8
     step = (total + k - 1) // k
     return [Ob(f'smt_presentation[{i * step}..]', 'smt_presentation',
                kind='smt', timeout=t, twin=False,
-               slice={'range': (i * step, (i + 1) * step)})
+               slice={'range': (i * step, (i + 1) * step), 'big': big})
             for i in range(k)]
 
 
